@@ -336,6 +336,9 @@ public:
      * set to 0
      */
     inline void reset(const bool startatlineend=false) {
+#if defined(FIX8_VERIF) && defined(FIX8_VERIF_POINT)
+        FIX8_VERIF_POINT(9031); // verification hook: wiping a (possibly recycled) segment is a scheduling point
+#endif
         if (startatlineend) {
             /**
              *  This is a good starting point if the multipush method will be
